@@ -169,12 +169,14 @@ CLAIMED = {
          "specification defines for points without explicit deltas (a relational specification written from the gvar text, "
          "iup1_meets_spec), never overshoots the reference deltas, and does not depend on the order of the two reference points; for whole "
          "contours (iup_contour_spec) explicit deltas are kept and every other point is inferred from the nearest explicit points before "
-         "and after it around the contour, wrap-around included. "
+         "and after it around the contour, wrap-around included. The delta-set index maps through which HVAR/VVAR find advance deltas "
+         "(getEntryFormat, VarIdxMapValue packing, the DeltaSetIndexMap table) are modelled too: for every list of 32-bit variation indices "
+         "compile succeeds and decompile returns the list (index_map_roundtrip; bit operations by bit inclusion and arithmetic forms). "
          "iup_segment/iup_contour/iup_delta are modelled and tied to the code by exact correspondence on rational inputs with every "
          "explicit/inferred pattern. The rest of the pipeline (outline decoding, components, gvar application order, phantom-point advances, "
          "HVAR, avar, clamping, CFF/CFF2 charstrings incl. flex ties) is compared glyph by glyph with HarfBuzz on corpus and generated fonts at "
          "default, extreme, random and out-of-range locations (testing).",
-         "Rocq proof that inferred deltas meet the specification + exact correspondence + HarfBuzz glyph sweeps"),
+         "Rocq proof that inferred deltas meet the specification and that advance index maps round-trip + exact correspondence + HarfBuzz glyph sweeps"),
  "C06": ("The pure-Python packer (OTTableWriter: hash-consing with structural keys and Extension scoping, gathering order with "
          "sortCoverageLast and the extension area, positions, offset emission) is transcribed into Gallina and reproduces the real packer's "
          "output BYTE FOR BYTE on writer graphs captured from corpus and generated layout tables. Theorems: an emitted offset field reads back "
